@@ -107,7 +107,13 @@ pub fn sub_outcome(c: &SubCase) -> Outcome {
                 let l = sim.link();
                 // every other early peer announces a fixed identity
                 let identity = if i % 2 == 0 { Some(format!("pub-{}", i).into_bytes()) } else { None };
-                l.raw_handshake("PUB", identity.as_deref());
+                // ... and half of the others announce an EMPTY Identity (what every libzmq socket
+                // does by default): such peers must not share one registration
+                let announced: Option<&[u8]> = if identity.is_none() && i % 4 == 1 { Some(&[][..]) } else { identity.as_deref() };
+                if identity.is_none() && i % 4 == 1 {
+                    classes.push("peer-announces-an-empty-identity".into());
+                }
+                l.raw_handshake("PUB", announced);
                 let a = sim.attach(s, &l);
                 peers.push(PeerRt { link: l, attach: a, broken: false, join_overlapped_call: false, joined: false, stalled: false, identity, xpub: false });
             }
@@ -223,7 +229,11 @@ pub fn sub_outcome(c: &SubCase) -> Outcome {
                         }
                         let l = sim.link();
                         let identity = if *ident { Some(format!("pub-{}", peers.len()).into_bytes()) } else { None };
-                        l.raw_handshake(if *xpub { "XPUB" } else { "PUB" }, identity.as_deref());
+                        let empty = identity.is_none() && peers.len() % 2 == 1;
+                        if empty {
+                            classes.push("peer-announces-an-empty-identity".into());
+                        }
+                        l.raw_handshake(if *xpub { "XPUB" } else { "PUB" }, if empty { Some(&[][..]) } else { identity.as_deref() });
                         let mut stalled = false;
                         if let Some(k) = stall {
                             l.from_lib.set_window(Window::Budget(SUB_HANDSHAKE_LEN + *k));
@@ -514,11 +524,12 @@ pub fn run(ctx: &Ctx) -> (Report, PropertyMeta) {
     health_abs(&mut report, "boundary-length-topic", 300);
     health_abs(&mut report, "one-broken-peer", 300);
     health_abs(&mut report, "peer-comes-back-under-its-identity", 300);
+    health_abs(&mut report, "peer-announces-an-empty-identity", 300);
 
     let _ = refcodec::hex;
     let meta = PropertyMeta {
         level: "exploration",
-        rule: "proptest histories on a real SUB socket: subscribe/unsubscribe calls over 4 short topics plus topics of 253 / 254 / 255 / 256 / 70000 bytes (repeats and never-subscribed topics included) interleaved with raw PUB/XPUB peers joining through the real handshake as separate actors, a joiner's connection optionally stalled right after the handshake so that its join is suspended between the socket reading its subscription set and registering the peer while calls run, optionally one peer whose writes fail, peers coming back under their announced identity; plus a targeted enumeration of join and come-back positions. Oracle at quiescence: each live peer's wire is folded into per-topic counts the way a publisher does (+1/-1, floored); (i) all live peers agree on whether each topic is subscribed; (ii) the agreed value equals the socket's subscription SET after the API history (a repeated subscribe changes nothing) and no peer holds more than one subscription for a topic; (iii) a peer that announced a fixed identity and comes back under it while the socket has not noticed that its old connection is dead (Rejoin) is, from then on, the new connection and is held to (i)-(ii) like any other; (iv) with one broken peer every other peer is still updated and no call panics or hangs. Non-trivial = a join after a subscribe, or overlapping a call, or a repeated topic; distinct by case".into(),
+        rule: "proptest histories on a real SUB socket: subscribe/unsubscribe calls over 4 short topics plus topics of 253 / 254 / 255 / 256 / 70000 bytes (repeats and never-subscribed topics included) interleaved with raw PUB/XPUB peers joining through the real handshake as separate actors, a joiner's connection optionally stalled right after the handshake so that its join is suspended between the socket reading its subscription set and registering the peer while calls run, optionally one peer whose writes fail, peers coming back under their announced identity, peers announcing an empty Identity (libzmq's default; they must not share a registration); plus a targeted enumeration of join and come-back positions. Oracle at quiescence: each live peer's wire is folded into per-topic counts the way a publisher does (+1/-1, floored); (i) all live peers agree on whether each topic is subscribed; (ii) the agreed value equals the socket's subscription SET after the API history (a repeated subscribe changes nothing) and no peer holds more than one subscription for a topic; (iii) a peer that announced a fixed identity and comes back under it while the socket has not noticed that its old connection is dead (Rejoin) is, from then on, the new connection and is held to (i)-(ii) like any other; (iv) with one broken peer every other peer is still updated and no call panics or hangs. Non-trivial = a join after a subscribe, or overlapping a call, or a repeated topic; distinct by case".into(),
         assumptions: vec![
             "joins by connect() cannot overlap a call (&mut self); only accept-path joins are generated as concurrent actors".into(),
             "interleaving at await granularity (DESIGN §2.3)".into(),
